@@ -2,9 +2,9 @@ package main
 
 import (
 	"fmt"
-	"sort"
 	"go/token"
 	"go/types"
+	"sort"
 
 	"golang.org/x/tools/go/ssa"
 )
